@@ -13,7 +13,8 @@ PROPS = {
                           "server's list; query-count bound for termination",
                 text="Grid N 0..40 x page size 1..N+1 enumerated completely for 19 message-server configurations (GetHistory/Search/SearchGlobal x response kinds x offset "
                      "precedence) and 6 dialog-server configurations; every run iterates to exhaustion through the real TL codec; missing/duplicate/reordered/extra items, "
-                     "iterator errors, panics and more than ceil(N/limit)+2 queries are violations. Sampled arms: start offsets, interleaved messageEmpty.",
+                     "iterator errors, panics and more than ceil(N/limit)+2 queries are violations. Large arm (both tiers): N 99..1000 x page sizes 1..1000 around Telegram's per-request maximum of 100, against a server honouring any limit and a server truncating limits to 100, "
+                     "plus a random sample with N and page size up to 2000. Sampled arms: start offsets, interleaved messageEmpty.",
                 note="The fake server's pagination semantics (core.telegram.org/api/offsets; unique descending ids and dates) are the trusted base; non-default server variants "
                      "are named in the signature. Histories with equal dates in one chat, pinned dialogs and non-monotone ids (global search across chats) are not modelled.",
                 watchdog={"quick": 900, "thorough": 3600}),
